@@ -215,8 +215,10 @@ class Lin:
                     out = mul(out, conj(bk.get(p, K)))
                 return out
             # any other repo helper: type its own body under the kinds of the actual arguments (context-sensitive, depth <= 3)
-            if self.depth < 3 and not fn.cls:
-                sub = Lin(self.M, fn, env={p: k for p, k in bk.items()}, depth=self.depth + 1)
+            self_call = isinstance(f, ast.Attribute) and isinstance(f.value, ast.Name) and f.value.id == "self" and fn.cls is not None and fn.qual != self.f.qual
+            if self.depth < 3 and (not fn.cls or self_call):
+                # (a helper method of the same object, `self._transform(input, ...)`, is typed like any other helper)
+                sub = Lin(self.M, fn, env={p: k for p, k in bk.items() if p != "self"}, depth=self.depth + 1)
                 rets = sub.run()
                 if not rets:
                     return K
@@ -225,6 +227,22 @@ class Lin:
                     out = join(out, k)
                 return out
             return N
+        if tgt[0] == "self" and len(tgt) > 2 and tgt[2] is not None and self.depth < 3 and tgt[2].qual != self.f.qual:
+            # a helper method of the same object (`self._transform(input, ...)`): typed like any other repo helper, under the kinds of the actual arguments
+            fn = tgt[2]
+            try:
+                bound = self.M.bind(c, fn, skip_self=True)
+            except Unrecognised:
+                return N
+            bk = {p: (self.kind(n) if not isinstance(n, (list, dict)) else K) for p, n in bound.items()}
+            sub = Lin(self.M, fn, env={p: k for p, k in bk.items()}, depth=self.depth + 1)
+            rets = sub.run()
+            if not rets:
+                return K
+            out = rets[0][1]
+            for _, k in rets[1:]:
+                out = join(out, k)
+            return out
         if tgt[0] == "ext":
             name = tgt[1]
             short = name.split(".")[-1]
